@@ -11,7 +11,7 @@ NREG = 2
 READS = ["iter", "labels", "label_timeline", "label_support", "label_duration", "get_timeline", "chart",
          "get_tracks", "get_labels", "has_track", "getitem", "len", "bool", "contains_seg", "contains_tl", "uri"]
 RULE = ("histories of 5-40 operations over 2 annotation registers: a[s,t]=l, a[s]=l, del a[s,t], del a[s], "
-        "update(other), rename_labels(copy=False), uri assignment, Annotation(), from_records / from_df, each write "
+        "update(other), rename_labels(copy=False) incl. empty mappings, uri assignment, Annotation(), from_records / from_df, each write "
         "followed with probability 1/2 by one or two reads drawn from every read kind (itertracks, labels, "
         "label_timeline + its uri, label_support, label_duration, get_timeline + uri, chart (and chart(percent=True) against it), get_tracks, get_labels, "
         "has_track, a[s,t], len, bool, segment/timeline containment); plus every history of three writes (set / delete track / delete segment / in-place rename) over two segments and two names used both as track names and labels, a full read after each write (4096 histories; all 65536 four-write histories in the thorough tier); in 30% of the histories the track names are the labels themselves; label and track universes with pairwise distinct "
